@@ -1264,6 +1264,21 @@ public:
         "Assignment of a wrapper that belongs to a different sandbox type. "
         "Data of another sandbox has to be verified and copied explicitly.");
     }
+    else if_constexpr_named(
+      cond_func_ptr,
+      (detail::rlbox_is_tainted_v<T_Rhs> ||
+       detail::rlbox_is_tainted_volatile_v<T_Rhs>)&&(detail::
+                                                       is_func_ptr_v<T> ||
+                                                     detail::is_func_ptr_v<
+                                                       detail::
+                                                         rlbox_remove_wrapper_t<
+                                                           T_Rhs>>)&&!std::
+        is_assignable_v<T&, detail::rlbox_remove_wrapper_t<T_Rhs>>)
+    {
+      rlbox_detail_static_fail_because(
+        cond_func_ptr,
+        "Trying to assign function pointer to field of incompatible types");
+    }
     else if_constexpr_named(cond2, detail::rlbox_is_tainted_v<T_Rhs>)
     {
       using namespace detail;
@@ -1292,7 +1307,9 @@ public:
 
       // need to perform some typechecking to ensure we are assigning compatible
       // function pointer types only
-      if_constexpr_named(subcond1, !std::is_assignable_v<T&, T_RhsFunc>)
+      if_constexpr_named(subcond1,
+                         !detail::is_func_ptr_v<T> ||
+                           !std::is_assignable_v<T&, T_RhsFunc>)
       {
         rlbox_detail_static_fail_because(
           subcond1,
